@@ -2,6 +2,7 @@ import ScenicModel.Props.C18Int
 import ScenicModel.Gen.IntCodec
 import ScenicModel.Props.C18Replay
 import ScenicModel.Props.C18Sample
+import ScenicModel.Props.C18Stream
 
 /-!
 # C18 — property theorems, instantiated on the data regenerated from /repo
